@@ -30,9 +30,21 @@ def fresh(u1, u2):
 def affine(u1, u2):
     """(factor, offset) of the conversion u1 -> u2 from pint: f(x) = a x + b."""
     a, b = fm.UNITS.Unit(u1), fm.UNITS.Unit(u2)
+    import fractions
     c0 = float(fm.UNITS.Quantity(0.0, a).to(b).magnitude)
-    c1 = float(fm.UNITS.Quantity(1.0, a).to(b).magnitude)
-    return c1 - c0, c0
+    c1 = float(fm.UNITS.Quantity(1000.0, a).to(b).magnitude)
+    # the exact rational factor/offset that the float results approximate (9/5, -45967/100, ...): differences of
+    # floats such as conv(1) - conv(0) carry rounding noise that would otherwise be taken literally by the solver
+    def simplest(x):
+        for k in (10**3, 10**5, 10**7, 10**9, 10**11):
+            f = fractions.Fraction(x).limit_denominator(k)
+            if abs(float(f) - x) <= 1e-11 * max(abs(x), 1e-300):
+                return f
+        return fractions.Fraction(x)
+
+    fa = simplest((c1 - c0) / 1000.0)
+    fb = simplest(c0) if c0 != 0 else fractions.Fraction(0)
+    return fa, fb
 
 
 def h_memo(ctx):
@@ -117,7 +129,7 @@ def h_convert(ctx):
     # --- prepare under metadata that demands a fixed mask (unmasked quantity payload gets wrapped)
     g1 = fm.UniformGrid((3,))
     minfo = fm.Info(time=hlib.T0, grid=g1, units=u2, mask=np.array([False, True]))
-    offset_pair = comp and abs(affine(u1, u2)[1]) > 0
+    offset_pair = comp and affine(u1, u2)[1] != 0
     if offset_pair:
         res = "skipped"  # numpy.ma cannot add an offset to a masked OBJECT array (proxy limitation, stated)
     else:
@@ -180,9 +192,15 @@ def families(tier):
     pairs = _all_pairs(small if q else cat)
     fams = [
         dict(name="memo:induction", ref="vf.props.c17:h_memo",
-             params={"pairs": pairs, "queries": 2 if q else 3, "context": small[:8]},
-             bounds=f"{len(pairs)} ordered pairs x 5 cache pre-states x every sequence of {2 if q else 3} queries",
+             params={"pairs": pairs, "queries": 2, "context": small[:8]},
+             bounds=f"{len(pairs)} ordered pairs x 5 cache pre-states x every sequence of 2 queries",
              must_cover=["done"]),
+    ] + ([] if q else [
+        dict(name="memo:induction:3queries", ref="vf.props.c17:h_memo",
+             params={"pairs": _all_pairs(small), "queries": 3, "context": small[:8]},
+             bounds=f"{len(small) ** 2} ordered pairs x 5 cache pre-states x every sequence of 3 queries",
+             must_cover=["done"]),
+    ]) + [
         dict(name="convert:values", ref="vf.props.c17:h_convert", params={"pairs": pairs},
              bounds=f"{len(pairs)} ordered pairs, symbolic magnitudes",
              must_cover=["to_units:ok", "to_units:refused", "prepare:refused", "link:refused", "link:ok"]),
